@@ -8,7 +8,7 @@ import z3
 
 from lib.common import Check, FunctionRecorder
 from . import npproxy
-from .symreal import PathManager, model_value, prove, satisfiable
+from .symreal import PathManager, _timed_check, model_value, prove, satisfiable
 
 Claim = tuple[str, Any]  # (label, z3 BoolRef)
 
@@ -39,7 +39,7 @@ def run_sym(
     (e.g. "this path must be infeasible" = claim False); otherwise an unexpected exception is a harness error
     unless `expect_exception(e)` accepts it.
     """
-    pm = PathManager(precondition=list(pre), max_paths=max_paths, timeout_ms=min(timeout_ms, 5000))
+    pm = PathManager(precondition=list(pre), max_paths=max_paths, timeout_ms=min(timeout_ms, 5000), budget_s=(120.0 if timeout_ms <= 10000 else 900.0))
     stats = {"paths": 0, "proved": 0, "refuted": 0, "unknown": 0, "vacuous": 0}
     if record:
         with FunctionRecorder(check.functions):
@@ -47,7 +47,13 @@ def run_sym(
     else:
         paths = list(pm.explore(fn))
     first = True
+    nonrepro_here = 0
     for kind, res, pc in paths:
+        if nonrepro_here >= 5:
+            # five counterexamples of this case in a row failed to reproduce natively: an artefact of the encoding, not of the code;
+            # the remaining paths would add the same report at ~10 s apiece.  The case is reported as not decided.
+            check.inconclusive_note(f"{group}: stopped after 5 non-reproducing counterexamples (case {case_id})")
+            break
         stats["paths"] += 1
         if kind == "exc":
             if on_exception is not None:
@@ -120,6 +126,7 @@ def run_sym(
                         if rep is not None:
                             break
                 if rep is None:
+                    nonrepro_here += 1
                     check.nonreproducing(f"{group}: counterexample for '{label}' (case {case_id}) did not reproduce natively: {str(model)[:300]}")
                 else:
                     key, what, payload = rep
@@ -128,7 +135,7 @@ def run_sym(
                     tag = what.split(":", 1)[0].strip() if ":" in what else what[:40]
                     check.violation(f"{key}::{tag}", what, payload)
     if pm.truncated:
-        check.inconclusive_note(f"{group}: path budget exhausted after {pm.paths} paths (case {case_id})")
+        check.inconclusive_note(f"{group}: path or time budget exhausted after {pm.paths} paths (case {case_id})")
     if stats["paths"] == 0 or stats["vacuous"] == stats["paths"]:
         check.harness_error(f"{group}: no feasible path reached the assertion (case {case_id})")
     check.stubs.update(npproxy.HITS)
@@ -190,7 +197,7 @@ def _nice_models(claim, pc, model):
             v = d()
             if z3.is_real(v):
                 s.add(z3.IsInt(v), v >= -box, v <= box)
-        if str(s.check()) == "sat":
+        if _timed_check(s, hard_ms=4000) == "sat":  # z3's own timeout is not always honoured: watchdog
             yield s.model()
     yield model
 
